@@ -59,61 +59,65 @@ func hIterOps(N, L, nOps int, kinds []base.InternalKeyKind, bounded, limits, set
 	}
 	it := hNewIterator(levels, readSeq, &opts)
 
+	const (
+		opFirst = iota
+		opLast
+		opSeekGE
+		opSeekLT
+		opSeekGELimit
+		opSeekLTLimit
+		opNext
+		opPrev
+		opNextLimit
+		opPrevLimit
+		opSetBounds
+	)
+	seekKey := func() byte {
+		k := sym.U8("seek")
+		sym.Assume(sym.And(k >= hKeyLo, k <= hKeyHi+1))
+		return k
+	}
+	limitKey := func() byte {
+		lim := sym.U8("limit")
+		sym.Assume(sym.And(lim >= hKeyLo, lim <= hKeyHi+1))
+		return lim
+	}
 	idx := int64(0)
 	positioned, pausedFwd, pausedRev := false, false, false
 	for step := 0; step < nOps; step++ {
 		var st IterValidityState
-		nAbs := 4
+		ops := []int{opFirst, opLast, opSeekGE, opSeekLT}
 		if limits {
-			nAbs = 5
+			ops = append(ops, opSeekGELimit, opSeekLTLimit)
 		}
-		nChoices := nAbs
-		if positioned {
-			nChoices = nAbs + 2
+		if positioned && !setBoundsOp {
+			ops = append(ops, opNext, opPrev)
 			if limits {
-				nChoices += 2
-			}
-			if setBoundsOp && step+1 < nOps {
-				nChoices++
+				ops = append(ops, opNextLimit, opPrevLimit)
 			}
 		}
-		op := 0
-		if setBoundsOp && step == 1 {
-			op = nChoices - 1 // the second operation changes the bounds
-		} else {
-			if setBoundsOp {
-				nChoices = nAbs
-			}
-			op = sym.Choose("op", nChoices)
-		}
-		if !limits && op >= 4 {
-			op++ // skip SeekGEWithLimit
-		}
-		if !limits && op >= 7 {
-			op += 2 // skip Next/PrevWithLimit
+		op := opSetBounds
+		if !(setBoundsOp && step == 1) { // with setBoundsOp the second operation changes the bounds
+			op = ops[sym.Choose("op", len(ops))]
 		}
 		mayPause := false // limits are best effort: the iterator may pause only if no visible key lies before the limit
 		switch op {
-		case 0:
+		case opFirst:
 			st = hState(it.First())
 			idx = a
-		case 1:
+		case opLast:
 			st = hState(it.Last())
 			idx = b - 1
-		case 2:
-			k := sym.U8("seek")
-			sym.Assume(sym.And(k >= hKeyLo, k <= hKeyHi+1))
+		case opSeekGE:
+			k := seekKey()
 			st = hState(it.SeekGE([]byte{k}))
 			idx = min(max(a, cnt(k)), b)
-		case 3:
-			k := sym.U8("seek")
-			sym.Assume(sym.And(k >= hKeyLo, k <= hKeyHi+1))
+		case opSeekLT:
+			k := seekKey()
 			st = hState(it.SeekLT([]byte{k}))
 			idx = max(min(b, cnt(k))-1, a-1)
-		case 4:
-			k, lim := sym.U8("seek"), sym.U8("limit")
-			sym.Assume(sym.And(k >= hKeyLo, k <= hKeyHi+1))
-			sym.Assume(sym.And(lim >= hKeyLo, lim <= hKeyHi+1))
+		case opSeekGELimit:
+			k, lim := seekKey(), limitKey()
 			st = it.SeekGEWithLimit([]byte{k}, []byte{lim})
 			j := min(max(a, cnt(k)), b)
 			mayPause = sym.Or(j >= b, keyAt(j) >= lim)
@@ -121,19 +125,27 @@ func hIterOps(N, L, nOps int, kinds []base.InternalKeyKind, bounded, limits, set
 			if st == IterAtLimit {
 				idx = j - 1
 			}
-		case 5:
+		case opSeekLTLimit:
+			k, lim := seekKey(), limitKey()
+			st = it.SeekLTWithLimit([]byte{k}, []byte{lim})
+			j := max(min(b, cnt(k))-1, a-1)
+			mayPause = sym.Or(j < a, keyAt(j) < lim)
+			idx = j
+			if st == IterAtLimit {
+				idx = j + 1
+			}
+		case opNext:
 			st = hState(it.Next())
 			if !pausedRev {
 				idx = min(idx+1, b)
 			}
-		case 6:
+		case opPrev:
 			st = hState(it.Prev())
 			if !pausedFwd {
 				idx = max(idx-1, a-1)
 			}
-		case 7:
-			lim := sym.U8("limit")
-			sym.Assume(sym.And(lim >= hKeyLo, lim <= hKeyHi+1))
+		case opNextLimit:
+			lim := limitKey()
 			st = it.NextWithLimit([]byte{lim})
 			j := idx
 			if !pausedRev {
@@ -144,9 +156,8 @@ func hIterOps(N, L, nOps int, kinds []base.InternalKeyKind, bounded, limits, set
 			if st == IterAtLimit {
 				idx = j - 1
 			}
-		case 8:
-			lim := sym.U8("limit")
-			sym.Assume(sym.And(lim >= hKeyLo, lim <= hKeyHi+1))
+		case opPrevLimit:
+			lim := limitKey()
 			st = it.PrevWithLimit([]byte{lim})
 			j := idx
 			if !pausedFwd {
@@ -157,7 +168,7 @@ func hIterOps(N, L, nOps int, kinds []base.InternalKeyKind, bounded, limits, set
 			if st == IterAtLimit {
 				idx = j + 1
 			}
-		case 9:
+		case opSetBounds:
 			lower, upper := setBounds()
 			it.SetBounds(lower, upper)
 			positioned, pausedFwd, pausedRev = false, false, false
@@ -167,8 +178,8 @@ func hIterOps(N, L, nOps int, kinds []base.InternalKeyKind, bounded, limits, set
 		if st == IterAtLimit {
 			sym.Assert(mayPause, "pauses-only-at-or-beyond-the-limit")
 		}
-		pausedFwd = st == IterAtLimit && (op == 4 || op == 7)
-		pausedRev = st == IterAtLimit && op == 8
+		pausedFwd = st == IterAtLimit && (op == opSeekGELimit || op == opNextLimit)
+		pausedRev = st == IterAtLimit && (op == opSeekLTLimit || op == opPrevLimit)
 		if st != IterAtLimit {
 			sym.Assert((st == IterValid) == sym.And(idx >= a, idx < b), "valid-iff-model-position-in-window")
 		}
